@@ -274,10 +274,46 @@ def rule_restore(facts, cg):
     return r
 
 
+def rule_enumidx(facts):
+    """Binder / planner code runs on the session's own thread: a slice index panic there ends the session. The pattern
+    `for (idx, x) in a.iter().enumerate() { b[idx] = … }` indexes one collection with positions of another; it is in bounds only if
+    the two lengths were compared first (views and CTEs are re-bound on every use, so a count validated at CREATE time proves
+    nothing about the columns found now)."""
+    from .mir import Fn
+    r = RuleResult("C15-ENUMIDX", "in binder/planner/resolver code, indexing a collection with the enumerate() position of another collection is dominated by a "
+                   "comparison of two lengths", floor=1)
+    for rec in facts.all_fns(["glaredb_core"]):
+        if not any(m in rec["id"] for m in ("::logical::binder::", "::logical::planner::", "::logical::resolver::")) or "::tests::" in rec["id"]:
+            continue
+        if "Enumerate" not in str(rec["bbs"]):
+            continue
+        fn = Fn(rec)
+        len_cmp_blocks = []
+        for b, i, pl, rv, ln in fn.assigns():
+            if rv[0] == "bin" and rv[1] in ("Lt", "Le", "Gt", "Ge", "Eq", "Ne"):
+                os_ = [fn.origin(x, at=b) if x[0] in ("c", "m") else None for x in (rv[2], rv[3])]
+                if all(o and o[0] == "call" and o[1].name.endswith("::len") for o in os_):
+                    len_cmp_blocks.append(b)
+        for c in fn.calls():
+            if not (c.decl.startswith("std::ops::Index") and len(c.args) >= 2):
+                continue
+            io = fn.origin(c.args[1], at=c.bb, through_calls=("::unwrap", "::branch"))
+            if not (io[0] == "call" and "Enumerate" in io[1].name and io[1].name.endswith("::next")):
+                continue
+            r.functions.add(fn.id)
+            r.call_sites += 1
+            ok = any(fn.dominates(b, c.bb) and b != c.bb for b in len_cmp_blocks)
+            r.inst({"fn": fn.id, "line": c.line, "lengths_compared_before": ok}, ok)
+            if not ok:
+                r.violate(fn.id, "enumerate-index-unchecked", f"the collection indexed at line {c.line} is addressed with the enumerate() position of another collection and no comparison "
+                          "of the two lengths dominates it: more items than slots is an index-out-of-bounds panic on the session thread", rec["file"], c.line)
+    return r
+
+
 def run(ctx):
     facts = ctx["facts"]
     cg = CallGraph(facts)
-    return [rule_unimpl(facts, cg), rule_depth(facts, cg), rule_restore(facts, cg)]
+    return [rule_unimpl(facts, cg), rule_depth(facts, cg), rule_restore(facts, cg), rule_enumidx(facts)]
 
 
 CLAIM = {
